@@ -207,6 +207,9 @@ class NoiseExpression(Expr):
     def __rdiv__(self, x):
         return self.__class__(x / self.expr, nid=self.nid)
 
+    __truediv__ = __div__
+    __rtruediv__ = __rdiv__
+
     def __eq__(self, x):
         try:
             if self.nid != x.nid:
